@@ -188,6 +188,14 @@ Fixpoint examined_scan (D : domains) (x : var) (pend : option Z) (t : list event
   end.
 (* x occurs in the condition, never bare (always below an attribute), and ranges over objects *)
 Definition bare (x : var) (e : opnd) : bool := match e with OVar y => Nat.eqb x y | _ => false end.
+(* the comparison evaluated first reads an attribute of x (whatever is bound to x is then looked at at once) *)
+Fixpoint leftmost_reads (x : var) (c : cond) : bool :=
+  match c with
+  | CCmp _ l r => nmem x (opnd_vars l ++ opnd_vars r)
+  | CAnd l _ | CElseIf l _ | CUnion l _ => leftmost_reads x l
+  | CNot c => leftmost_reads x c
+  | CExists _ _ | CForAll _ _ => false
+  end.
 Fixpoint no_bare (x : var) (c : cond) : bool :=
   match c with
   | CCmp _ l r => negb (bare x l) && negb (bare x r)
@@ -195,7 +203,7 @@ Fixpoint no_bare (x : var) (c : cond) : bool :=
   | CNot c => no_bare x c
   | CExists (OVar _) c => no_bare x c
   | CExists e c => negb (bare x e) && no_bare x c
-  | CForAll _ c => no_bare x c
+  | CForAll y c => (negb (Nat.eqb x y) || leftmost_reads x c) && no_bare x c
   end.
 Definition attr_only (D : domains) (q : query) (x : var) : bool :=
   match q_cond q with
@@ -262,8 +270,15 @@ Definition union_free_o (c : option cond) : bool := match c with Some c => union
 Definition case_spec_code (c : ecase) (full : list event) (ks : list (list event)) : sx :=
   SZ (spec_code (union_free_o (q_cond (e_query c)))
                 (examined_okb (mk_domains (e_doms c)) [e_query c] (map fst (e_doms c))) full ks).
-(* a sequence of evaluations over the same variables: [base] = log after the first step alone, [t] = log after both *)
-Definition seq_spec_code (c : ecase) (q2 : query) (base t : list event) : sx :=
+(* a sequence of evaluations over the same variables: [base] = log after the first step alone, [t] = log after both.
+   [quiet]: the second evaluation is of the same query and asks for no more results than the first one already obtained --
+   everything it needs is cached, so it must not touch any generator (bit 4) *)
+Definition is_end_any (e : event) : bool := match e with End _ => true | _ => false end.
+Definition same_pulls (base t : list event) : bool :=
+  forallb (fun x => Nat.eqb (npulls x t) (npulls x base)) (vars_of t)
+  && Nat.eqb (length (filter is_end_any t)) (length (filter is_end_any base)).
+Definition seq_spec_code (c : ecase) (q2 : query) (quiet : bool) (base t : list event) : sx :=
   SZ (b2z (prefixb base t) 1
       + b2z (forallb (fun x => pulls_in_orderb x t) (vars_of t)) 2
+      + b2z (negb quiet || same_pulls base t) 4
       + b2z (examined_okb (mk_domains (e_doms c)) [e_query c; q2] (map fst (e_doms c)) t) 8)%Z.
